@@ -80,6 +80,7 @@ type c13Ctx struct {
 	phKey     string // a bound placeholder
 	phApp     string
 	nodeKnown string
+	zombieKey string // an allocation whose node was removed, release not yet confirmed by the shim
 }
 
 func newC13Ctx(scn *world.Scenario, m *world.ShimModel, snap *world.Snap) *c13Ctx {
@@ -107,6 +108,12 @@ func newC13Ctx(scn *world.Scenario, m *world.ShimModel, snap *world.Snap) *c13Ct
 			c.phKey, c.phApp = k, ks.App
 		case ks.State == "bound" && c.allocKey == "":
 			c.allocKey, c.allocApp = k, ks.App
+		case ks.State == "zombie" && c.zombieKey == "":
+			// the core announced its release (node removed) and the shim has not confirmed yet
+			c.zombieKey = k
+			if c.appKnown == "" {
+				c.appKnown = ks.App
+			}
 		}
 	}
 	for _, n := range sortedKeys(m.Nodes) {
@@ -150,7 +157,7 @@ func (c *c13Ctx) catalogue(full bool) []c13Msg {
 		return "[rm]nosuch"
 	}
 	// ---------------- allocations
-	keys := pick("new-key", "", orSkip(c.askKey), orSkip(c.allocKey))
+	keys := pick("new-key", "", orSkip(c.askKey), orSkip(c.allocKey), orSkip(c.zombieKey))
 	apps := pick(orSkip(c.appKnown), "", "nosuch-app", orSkip(c.appGone))
 	if c.appKnown == "" {
 		apps = pick("nosuch-app", "", orSkip(c.appGone))
@@ -496,6 +503,12 @@ func c13Extra(scn *world.Scenario, path []world.Op, counts map[string]int) (int,
 			}
 		} else {
 			counts["C13.wellformed-or-unjudged-item"]++
+			// whatever this harness thinks of the item: the core itself answered it with a rejection, so it must have left
+			// the accounting as it was
+			if rej != "" && changed && len(st.Out) == 1 {
+				counts["C13.rejected-by-the-core"]++
+				add(v("C13", "rejected-request-changes-state", msg.Class, "%s was answered with a rejection (%s) but changed the accounting: %s", msg.Desc, world.J(st.Out), firstDiff(ledger, after)))
+			}
 		}
 		if changed {
 			w.Close()
